@@ -16,6 +16,7 @@ type diffProp struct {
 	extra    func(c Case, eng, ref ExecOut, o *Outcome) // property-specific extra oracle
 	tune     func(r *Rng, c *Case, g *GenCfg)
 	avoid    []string
+	extreme  bool
 }
 
 func (p *diffProp) ID() string     { return p.id }
@@ -42,6 +43,9 @@ func (p *diffProp) Gen(seed uint64, tier string, i int) Case {
 	c.Engine.Opt = "none"
 	g := &GenCfg{Avoid: mergeAvoid(p.avoid...), MaxDepth: p.depth, Focus: p.focus, W: c.Window, Lookback: c.Engine.LookbackMs}
 	g.Hostile = r.P(0.15)
+	if p.extreme {
+		g.Hostile, g.Extreme = r.P(0.5), true
+	}
 	genLookback := c.Engine.LookbackMs
 	if p.id == "C01" {
 		c.Engine.Opt = Pick(r, optSets)
